@@ -12,8 +12,8 @@
 
 //! Restore from the archive to the filesystem.
 
-use std::collections::HashMap;
-use std::fs::{File, create_dir_all};
+use std::collections::{HashMap, HashSet};
+use std::fs::{self, File, create_dir_all};
 use std::io::{self, Write};
 use std::path::{Path, PathBuf};
 use std::sync::Arc;
@@ -105,6 +105,8 @@ pub async fn restore(
     let mut restored_symlinks: Vec<Apath> = Vec::new();
     // Directories that could not be created: what's inside them fails too.
     let mut failed_dirs: Vec<Apath> = Vec::new();
+    // Directories in the destination that are known not to be symlinks.
+    let mut real_dirs: HashSet<PathBuf> = HashSet::new();
     while let Some(entry) = stitch.next().await {
         task.set_name(format!("Restore {}", entry.apath));
         if let Some(link) = restored_symlinks
@@ -121,6 +123,27 @@ pub async fn restore(
             continue;
         }
         let path = destination.join(&entry.apath[1..]);
+        if options.overwrite && *entry.apath() != Apath::root() {
+            // The destination may already hold things, for example an earlier version
+            // restored there. Never write through a symlink found in it: that would change
+            // whatever the link points to, probably outside the destination.
+            if let Some(link) = symlink_above(destination, &path, &mut real_dirs) {
+                monitor.error(Error::InvalidMetadata {
+                    details: format!(
+                        "Not restoring {:?} because {:?} in the destination is a symlink",
+                        entry.apath(),
+                        link
+                    ),
+                });
+                continue;
+            }
+            if is_symlink(&path) {
+                if let Err(err) = fs::remove_file(&path) {
+                    monitor.error(Error::RestoreFile { path, source: err });
+                    continue;
+                }
+            }
+        }
         if entry.kind() != Kind::Dir && !failed_dirs.iter().any(|d| d.is_prefix_of(&entry.apath)) {
             // Normally the parent was restored from its own entry, earlier in the index.
             // It's missing if only this entry was selected, or if the index hunk holding
@@ -186,6 +209,40 @@ pub async fn restore(
     }
     apply_deferrals(&deferrals, monitor.clone())?;
     Ok(())
+}
+
+fn is_symlink(path: &Path) -> bool {
+    path.symlink_metadata()
+        .is_ok_and(|metadata| metadata.file_type().is_symlink())
+}
+
+/// Return the first symlink among the directories between `destination` (itself excluded,
+/// the user chose it) and `path` (excluded too), remembering in `real_dirs` those already
+/// looked at.
+fn symlink_above(
+    destination: &Path,
+    path: &Path,
+    real_dirs: &mut HashSet<PathBuf>,
+) -> Option<PathBuf> {
+    let parent = path.parent()?;
+    if parent == destination || real_dirs.contains(parent) {
+        return None;
+    }
+    let mut dir = destination.to_owned();
+    for component in parent.strip_prefix(destination).ok()?.components() {
+        dir.push(component);
+        if real_dirs.contains(&dir) {
+            continue;
+        }
+        match dir.symlink_metadata() {
+            Ok(metadata) if metadata.file_type().is_symlink() => return Some(dir),
+            Ok(_) => {
+                real_dirs.insert(dir.clone());
+            }
+            Err(_) => break, // Not there yet: it will be created as a real directory.
+        }
+    }
+    None
 }
 
 fn restore_dir(apath: &Apath, restore_path: &Path, options: &RestoreOptions) -> io::Result<()> {
